@@ -690,12 +690,13 @@ class SetDict(dict):
         super().__setitem__(key, value)
 
     def update(self, value: dict, **kwargs) -> None:  # type: ignore
+        merged = {}
         for key, val in value.items():
             val = self.make_set(val)
             if key in self:
                 val = self[key].union(val)
-            value[key] = val
-        super().update(value, **kwargs)
+            merged[key] = val
+        super().update(merged, **kwargs)
 
 
 def inf2str(value):  # map np.inf to "inf"
